@@ -114,6 +114,11 @@ class Tx(ast.NodeTransformer):
         self.generic_visit(node)
         return ast.copy_location(_call("set", ast.List(node.elts, ast.Load())), node)
 
+    def visit_DictComp(self, node):
+        self.generic_visit(node)
+        pair = ast.Tuple([node.key, node.value], ast.Load())
+        return ast.copy_location(_call("SX_dictcomp", ast.GeneratorExp(pair, node.generators)), node)
+
     def visit_Dict(self, node):
         self.generic_visit(node)
         if any(k is None for k in node.keys):
